@@ -556,6 +556,11 @@ func runC17(r *Run) {
 				if !isC || !isBuiltin(c, "append") || enclosingLoopHead(f, b) == nil {
 					continue
 				}
+				// only the merge loop counts — the one that consults the id set; a loop that copies or converts a list
+				// element by element (a conversion helper written out in place) decides nothing
+				if !loopConsultsMap(sf, f, enclosingLoopHead(f, b)) {
+					continue
+				}
 				nApp++
 				if !core.HasFact(sf.At(c), "miss(_, _)") {
 					okApp = false
@@ -1635,4 +1640,24 @@ func (r *Run) readOnlyMapKeys(g *core.Term) []string {
 	}
 	sort.Strings(out)
 	return out
+}
+
+// loopConsultsMap: some block of the loop with the given head looks a key up in a map.
+func loopConsultsMap(ff *core.FnFacts, f *ssa.Function, head *ssa.BasicBlock) bool {
+	if head == nil {
+		return false
+	}
+	for _, b := range f.Blocks {
+		if !head.Dominates(b) || !blockReaches(ff, b, head, nil) {
+			continue
+		}
+		for _, ins := range b.Instrs {
+			if lk, ok := ins.(*ssa.Lookup); ok {
+				if _, isMap := lk.X.Type().Underlying().(*types.Map); isMap {
+					return true
+				}
+			}
+		}
+	}
+	return false
 }
